@@ -47,8 +47,8 @@ Qed.
 Lemma base_in_domain_wf b : wf_base b -> base_in_domain (to_text b) = true.
 Proof.
   intro W. destruct (base_text_parse b W) as (segs & _ & _ & P). unfold base_in_domain. rewrite P.
-  cbn [scheme authority]. pose proof (wb_scheme_ne b W) as Hs. pose proof (authority_nonempty b (wb_host_ne b W)) as Ha.
-  destruct (u_scheme b); [contradiction|]. destruct (authority_text b); [discriminate|reflexivity].
+  cbn [scheme authority path]. pose proof (wb_scheme_ne b W) as Hs. pose proof (authority_nonempty b (wb_host_ne b W)) as Ha.
+  destruct (u_scheme b); [contradiction|]. rewrite Ha. reflexivity.
 Qed.
 
 Lemma ref_in_domain_wf d : wf_ref d \/ wf_base d -> ref_in_domain (to_text d) = true.
